@@ -599,12 +599,24 @@ class Gen:
         if s is None:
             return None
         b = self.b
-        c = [k for k in b.live_keys(s) if not b.spec[k]["path"].startswith("@abs")]
+        # (a file moves between the relative and the absolute locations only while every spec in it belongs to
+        # this model: what a move of a file shared by two models means for the other model is not stated)
+        c = [k for k in b.live_keys(s) if not b.spec[k]["path"].startswith("@abs")
+             or all(d["slot"] == s for d in b.same_file(s, b.spec[k]["path"]))]
         if not c:
             return None
         k = self.r.choice(c)
         sp = b.spec[k]
         pool = {"excel": XLSX, "csv": CSV, "module": PY}[sp["ftype"]]
+        single = all(d["slot"] == s for d in b.same_file(s, sp["path"]))
+        if sp["path"].startswith("@abs"):
+            # absolute stays absolute in generated histories (absolute -> relative is a listed defect of its own,
+            # exercised by the directed histories of flavour abs2rel only)
+            pool = [a for a in ABS if ftype_of(a) == sp["ftype"]]
+            if not pool:
+                return None
+        elif single and self.r.random() < 0.35:
+            pool = [a for a in ABS if ftype_of(a) == sp["ftype"]] or pool
         path = self.r.choice(pool)
         if norm(path) != norm(sp["path"]) and not b.same_file(s, path):
             for d in b.same_file(s, sp["path"]):
